@@ -340,8 +340,10 @@ def time_orders(rec, blocks):
 
     def backed():
         r = go()
-        if r[0] != 'refuted':
+        if r[0] == 'discharged':
             return r
+        # refuted, or undecided because the tree under check asks more of its sub-filters than the contract stub offers: the native replay
+        # (real Gaussian sub-filters, every order) decides
         wit = native_time_order_witness(rec, blocks)
         if wit is None:
             return ('undecided', r[1], r[2] + ' (no native counterexample found)')
@@ -750,9 +752,9 @@ def padding_and_order(rec):
 def _more_tasks():
     out = [('mixture:K=2', lambda rec: mixture(rec, 2)), ('mixture:K=3', lambda rec: mixture(rec, 3) if rec.tier == 'thorough' else None),
            ('plain-sort', plain_sort), ('ieee-range', ieee_range), ('padding-order', padding_and_order)]
-    for blocks in [(1, 1), (2, 1), (1, 2), (1, 1, 1), (2, 2), (1, 2, 1)]:
+    for blocks in [(1, 1), (2, 1), (1, 2), (1, 1, 1), (2, 2), (1, 2, 1), (3, 1), (1, 3)]:       # (a sub-filter of three time points: rotations are not their own inverse)
         def run(rec, blocks=blocks):
-            if sum(blocks) == 4 and rec.tier == 'quick' and blocks != (1, 2, 1):
+            if sum(blocks) == 4 and rec.tier == 'quick' and blocks not in ((1, 2, 1), (3, 1)):
                 return
             time_orders(rec, blocks)
         out.append(('time-orders:%s' % '+'.join(map(str, blocks)), run))
